@@ -18,7 +18,7 @@ EXTENDS Integers, Sequences, FiniteSets
 
 SInit(n) == [n |-> n, started |-> {}, ready |-> {}, exited |-> {}, failed |-> {}, obs |-> {},
              sig |-> "none", sigterm |-> FALSE, cancelled |-> FALSE, nready |-> FALSE, sret |-> "none",
-             held |-> {}, tgate |-> FALSE, bad |-> {}]
+             held |-> {}, tgate |-> FALSE, nonotify |-> FALSE, bad |-> {}]
 SFlag(s, c) == [s EXCEPT !.bad = @ \cup {c}]
 Tasks(s) == 1..s.n
 
@@ -43,6 +43,9 @@ OnTObs(s, e) ==
 OnTGate(s, e) == [s EXCEPT !.tgate = e.held]
 OnTSaw(s, e)  == IF s.tgate /\ s.failed = {} THEN SFlag(s, "c20-terminate-flag-not-set-before-cancellation") ELSE s
 
+\* a scenario run under virtual time has no notify socket: announcements cannot be observed there
+OnNoNotify(s, e) == [s EXCEPT !.nonotify = TRUE]
+
 OnTExit(s, e) == LET s1 == IF s.sret # "none" THEN SFlag(s, "c20-task-returned-after-serve") ELSE s IN
                  [s1 EXCEPT !.exited = @ \cup {e.i}]
 
@@ -63,7 +66,7 @@ OnSQuiet(s, e) ==
             THEN SFlag(s, "c20-cancellation-did-not-reach-every-task") ELSE s
       \* (if every task returned nil on its own nothing has been cancelled: Serve keeps waiting for a signal)
       s2 == IF s.exited = Tasks(s) /\ s.cancelled /\ s.sret = "none" THEN SFlag(s1, "c20-serve-did-not-return") ELSE s1
-      s3 == IF s.ready = Tasks(s) /\ ~s.nready /\ ~s.cancelled THEN SFlag(s2, "c20-ready-not-announced") ELSE s2
+      s3 == IF s.ready = Tasks(s) /\ ~s.nready /\ ~s.cancelled /\ ~s.nonotify THEN SFlag(s2, "c20-ready-not-announced") ELSE s2
   IN s3
 
 \* BuildTasks: one task per advertising / monitoring interface in configuration order, none for an
